@@ -511,6 +511,13 @@ func c12WaitGroup(p *Prog, r *Report) {
 		return
 	}
 	info := fi.Pkg.TypesInfo
+	// the goroutine may be started by a method the job is handed to (rw.Produce(job)): the rules apply there
+	create := fi
+	if pr := p.createProducer(fi); pr != nil && pr.runner != fi {
+		fi = pr.runner
+		info = fi.Pkg.TypesInfo
+	}
+	_ = create
 	f := p.FlatOf(fi)
 	var gos []int
 	var lit *ast.FuncLit
@@ -666,4 +673,74 @@ func (p *Prog) isWaitGroupOp(pkg *packages.Package, c *ast.CallExpr, name string
 	}
 	ifn, ok := typeutilCallee(callee.Pkg.TypesInfo, inner)
 	return ok && fkey(ifn) == "(*sync.WaitGroup)."+name
+}
+
+// producer describes how inline Create runs the storing side: runner is the function that holds the go statement
+// (Create itself, or a method it hands its job to: rw.Produce(func() error {...})), goLit the goroutine's literal,
+// job the literal Create hands to the runner (nil when Create starts the goroutine itself) and jobParam the
+// runner's parameter it is bound to.
+type producer struct {
+	runner   *FuncInfo
+	goLit    *ast.FuncLit
+	job      *ast.FuncLit
+	jobParam types.Object
+}
+
+func (p *Prog) createProducer(fi *FuncInfo) *producer {
+	var res *producer
+	ast.Inspect(fi.Decl.Body, func(x ast.Node) bool {
+		if g, ok := x.(*ast.GoStmt); ok && res == nil {
+			if l, ok := g.Call.Fun.(*ast.FuncLit); ok {
+				res = &producer{runner: fi, goLit: l}
+			}
+		}
+		return true
+	})
+	if res != nil {
+		return res
+	}
+	ast.Inspect(fi.Decl.Body, func(x ast.Node) bool {
+		c, ok := x.(*ast.CallExpr)
+		if !ok || res != nil {
+			return true
+		}
+		callee := p.staticCallee(fi.Pkg, c)
+		if callee == nil || callee.Decl.Body == nil {
+			return true
+		}
+		args := argExprs(c, callee)
+		for i, po := range paramObjs(callee) {
+			if po == nil || i < 0 || args[i] == nil {
+				continue
+			}
+			job, isLit := ast.Unparen(args[i]).(*ast.FuncLit)
+			if !isLit {
+				continue
+			}
+			// the callee starts a goroutine whose literal calls that parameter
+			ast.Inspect(callee.Decl.Body, func(y ast.Node) bool {
+				g, ok := y.(*ast.GoStmt)
+				if !ok {
+					return true
+				}
+				l, ok := g.Call.Fun.(*ast.FuncLit)
+				if !ok {
+					return true
+				}
+				calls := false
+				ast.Inspect(l.Body, func(z ast.Node) bool {
+					if cc, ok := z.(*ast.CallExpr); ok && objOf(callee.Pkg.TypesInfo, cc.Fun) == po {
+						calls = true
+					}
+					return true
+				})
+				if calls {
+					res = &producer{runner: callee, goLit: l, job: job, jobParam: po}
+				}
+				return true
+			})
+		}
+		return true
+	})
+	return res
 }
